@@ -27,8 +27,22 @@ static int vp_stdout_fprintf(FILE *f, const char *fmt, ...) { (void)f; (void)fmt
 #define _exit(X) vp_exit(X)
 static void vp_exit(int code);
 #define conf log_conf
+/* typed allocation for the two node kinds src/log.c creates itself (see env/alloc.h) */
+struct set_node *vp_log_alloc(size_t size);
+#undef set_node_alloc
+#define set_node_alloc(SIZE) vp_log_alloc(SIZE)
 #include "src/log.c"
 #undef conf
+struct vp_lt_elt { struct set_node node; struct log_type lt; char name[16]; };
+struct vp_vt_elt { struct set_node node; struct log_destination_vtable vt; };
+struct set_node *vp_log_alloc(size_t size)
+{
+    if (size == sizeof(struct log_destination_vtable))
+        return (struct set_node *)calloc(1, sizeof(struct vp_vt_elt));
+    if (size >= sizeof(struct log_type) && size <= sizeof(struct log_type) + 16)
+        return (struct set_node *)calloc(1, sizeof(struct vp_lt_elt));
+    return (struct set_node *)calloc(1, sizeof(struct set_node) + size);
+}
 #undef fprintf
 #undef _exit
 #include "vp.h"
@@ -60,17 +74,20 @@ static int dest_index(const struct log_destination *d)
     return -1;
 }
 
-static struct log_destination *rec_open(const char *args)
+/* one back end type per destination ("recA", "recB", "recC", no ':' argument): with a
+ * "type:argument" name log_destination_open() copies the type with memcpy(, , sep - name), after
+ * which CBMC no longer treats the copied bytes as constants and every later lookup is symbolic */
+static struct log_destination *rec_open_i(int i)
 {
     struct rec_dest *r = calloc(1, sizeof(*r));
-    int i = args[0] - 'A';
     VP_ASSUME(r != NULL);
-    VP_ASSERT(i >= 0 && i < 3, "environment: destination names are A, B, C");
-    if (i < 0 || i > 2) i = 0;
     dest_obj[i] = &r->base;
     opened[i]++;
     return &r->base;
 }
+static struct log_destination *rec_open_A(const char *args) { (void)args; return rec_open_i(0); }
+static struct log_destination *rec_open_B(const char *args) { (void)args; return rec_open_i(1); }
+static struct log_destination *rec_open_C(const char *args) { (void)args; return rec_open_i(2); }
 static void rec_reopen(struct log_destination *self) { (void)self; }
 static void rec_close(struct log_destination *self)
 {
@@ -87,7 +104,9 @@ static void rec_log(struct log_destination *self, struct log_type *type, enum lo
     last_sev[i] = sev;
     last_text0[i] = message[0];
 }
-static const struct log_destination_vtable rec_vtable = { "rec", rec_open, rec_reopen, rec_close, rec_log };
+static const struct log_destination_vtable rec_vtable_A = { "recA", rec_open_A, rec_reopen, rec_close, rec_log };
+static const struct log_destination_vtable rec_vtable_B = { "recB", rec_open_B, rec_reopen, rec_close, rec_log };
+static const struct log_destination_vtable rec_vtable_C = { "recC", rec_open_C, rec_reopen, rec_close, rec_log };
 
 /* ---- the menu of sections: entry name, destinations (bit 0 A, 1 B, 2 C), and its documented
  * meaning as (facility: 'c' core, 'm', '*' any) x severity mask (bit s = severity s) ---- */
@@ -127,7 +146,7 @@ static char *dname(unsigned i)
 {
     char *p = malloc(6);
     VP_ASSUME(p != NULL);
-    p[0] = 'r'; p[1] = 'e'; p[2] = 'c'; p[3] = ':'; p[4] = (char)('A' + i); p[5] = '\0';
+    p[0] = 'r'; p[1] = 'e'; p[2] = 'c'; p[3] = (char)('A' + i); p[4] = '\0';
     return p;
 }
 
@@ -187,7 +206,9 @@ void harness(void)
 
     ctype_init();
     log_core = log_type_register("core", NULL);       /* log_init(): registers the logs section */
-    log_destination_vtable_register(&rec_vtable);
+    log_destination_vtable_register(&rec_vtable_A);
+    log_destination_vtable_register(&rec_vtable_B);
+    log_destination_vtable_register(&rec_vtable_C);
     types[0] = log_core;
     types[1] = log_type_register("m", NULL);
     types[2] = log_type_register("u", NULL);
